@@ -9,7 +9,12 @@ for d in seeded/*/; do
   rm -f build/replay/$prop-*-prop.txt build/replay/$prop-*-panic.txt
   cd /repo && git apply /verif/$d/patch.diff 2>/dev/null || { echo "patch does not apply"; cd /verif; continue; }
   cd /verif
-  ./check $prop 2>&1 | grep -E "^(VIOLATION|OK)" | head -1 | cut -c1-150
+  # the corpus makes detection independent of the sample; before a change is in the corpus a few seeds are tried
+  for seed in 1 2 3 4; do
+    out=$(./check $prop --seed $seed 2>&1 | grep -E "^(VIOLATION|OK)" | head -1 | cut -c1-150)
+    case "$out" in VIOLATION*) break;; esac
+  done
+  echo "$out"
   if [ "$1" = "--harvest" ]; then python3 tools/harvest.py $id $prop 2>&1 | sed 's/^/    /'; fi
   cd /repo && git checkout -- . && cd /verif
 done
